@@ -695,6 +695,13 @@ def compute_l2_key(
     request_l2: int,
     rk: GroupKeyEnvelope,
 ) -> bytes:
+    if not (0 <= request_l1 <= 31 and 0 <= request_l2 <= 31):
+        raise ValueError(f"Requested key index ({request_l1}, {request_l2}) is out of range")
+    if rk.l1 < request_l1 or (rk.l1 == request_l1 and rk.l2 < request_l2):
+        raise ValueError(
+            f"Seed key ({rk.l1}, {rk.l2}) cannot be used to derive the requested key ({request_l1}, {request_l2})"
+        )
+
     l1 = rk.l1
     l1_key = rk.l1_key
     l2 = rk.l2
